@@ -47,7 +47,7 @@ func init() {
 			"(each serializer, several receive limits) against every server reply of the same set over loopback TCP (exhaustive); then rotating kinds: size boundaries (limit-1, limit, limit+1 in both " +
 			"directions for length nibbles 1,2,3,7,15 with an incremental wire-stream checker), PING/PONG with payload sizes 0..limit during traffic, frames of reserved type, connection cut at every byte " +
 			"offset of a session transcript, websocket fake-connection faults at the k-th call, and transport-differential replay of a generated scenario over local, rawsocket x3 and websocket x3; " +
-			"every 9th of these (engine live): real RawSocketServer/WebsocketServer on unix/TCP sockets with RecvLimit 0/4096/5000/65536/1M and the project's client transports announcing 0/2048/3000/65536: " +
+			"every 9th of these (engine live): real RawSocketServer/WebsocketServer on unix/TCP sockets with RecvLimit 0/4096/5000/65536/1M and the project's client transports announcing 0/2048/3000/65536, plus one subscriber that is a real client.Client created by client.ConnectNet: " +
 			"PUBLISHes of exactly limit-1, limit, limit+1, limit+500 bytes from the client, EVENTs 200 bytes below/above the client's limit, contents compared, order and completeness checked, connections must survive (LV4, LV5); " +
 			"non-trivial = transcript with a frame within +-1 of a negotiated limit, a hello/reply that discriminates accept from reject, or a scenario with numbers the codecs represent differently",
 		Required: []string{"TR1", "TR2", "TR3", "TR4", "TR5", "TR6", "TR7", "TR8", "TR9", "LV4", "LV5"},
